@@ -323,69 +323,96 @@ POSTFIX_STOP = {"=", "{", "}", ";", ",", "=>", "else", "return", "(", "[", "&&",
 
 
 def inline_result_combinators(body, qual):
-    """R12: `X.and_then(|p| B)` -> `match X { Ok(p) => B, Err(e_) => Err(e_) }`,
-            `X.map(|p| B)`      -> `match X { Ok(p) => Ok(B), Err(e_) => Err(e_) }`,
-            `X.map(PATH)`       -> `match X { Ok(v_) => Ok(PATH(v_)), Err(e_) => Err(e_) }`,
-            `X.map_err(PATH)`   -> `match X { Ok(v_) => Ok(v_), Err(e_) => Err(PATH(e_)) }`
-    i.e. the std definitions of the Result combinators with the closure applied.  Repeated left to
-    right until no combinator call is left.  Newlines of the original text are kept."""
+    """R12: a chain  E0.c1(a1).c2(a2)...  of std Result combinators (and_then / map / map_err, each
+    applied to a closure literal or a path) becomes, in A-normal form,
+        let t1_ = E0;  let t2_ = <c1 applied to t1_>;  ...  <cN applied to tN_>
+    where the std definitions are used with the closure applied:
+        X.and_then(|p| B) = match X { Ok(p) => B, Err(e_) => Err(e_) }
+        X.map(|p| B)      = match X { Ok(p) => Ok(B), Err(e_) => Err(e_) }
+        X.map(PATH)       = match X { Ok(v_) => Ok(PATH(v_)), Err(e_) => Err(e_) }
+        X.map_err(PATH)   = match X { Ok(v_) => Ok(v_), Err(e_) => Err(PATH(e_)) }
+    The `let`s are placed at the start of the statement that contains the chain."""
+    COMB = ("and_then", "map_err", "map")
+    counter = 0
     guard = 0
     while True:
         guard += 1
-        if guard > 50:
-            raise ExtractError("R12: too many combinators in %s" % qual)
+        if guard > 20:
+            raise ExtractError("R12: too many chains in %s" % qual)
         toks = lex(body)
         pair = match_delims(toks)
         hit = None
         for i, t in enumerate(toks):
-            if t.kind == "ident" and t.text in ("and_then", "map_err", "map") and i > 0 and toks[i - 1].text == "." and toks[i + 1].text == "(":
+            if t.kind == "ident" and t.text in COMB and i > 0 and toks[i - 1].text == "." and toks[i + 1].text == "(" \
+                    and not (i >= 2 and toks[i - 2].text == "t_done_"):
                 hit = i
                 break
         if hit is None:
-            return body
+            return body.replace("t_done_.", "")
         i = hit
-        # receiver: walk left over the postfix chain
         j = i - 2
         while j >= 0:
             tx = toks[j].text
             if tx in (")", "]", "}"):
                 j = pair[j] - 1
                 continue
-            if tx == ">" and False:
-                pass
-            if tx in POSTFIX_STOP or (toks[j].kind == "punct" and tx not in (".", "::", ")", "]")):
+            if tx in POSTFIX_STOP or (toks[j].kind == "punct" and tx not in (".", "::")):
                 break
             j -= 1
         r0 = j + 1
         recv = body[toks[r0].start:toks[i - 2].end]
-        a0, a1 = i + 1, pair[i + 1]
-        arg_toks = toks[a0 + 1:a1]
-        name = toks[i].text
-        if arg_toks and arg_toks[0].text == "|":
-            k = 1
-            while arg_toks[k].text != "|":
-                k += 1
-            pat = body[arg_toks[1].start:arg_toks[k - 1].end]
-            cbody = body[arg_toks[k + 1].start:arg_toks[-1].end]
-            if name == "and_then":
-                new = "match %s { Ok(%s) => %s, Err(e_) => Err(e_) }" % (recv, pat, cbody)
-            elif name == "map":
-                new = "match %s { Ok(%s) => Ok(%s), Err(e_) => Err(e_) }" % (recv, pat, cbody)
+        # statement start: after the closest `;`, `{` or `}` to the left at this nesting depth
+        k = r0 - 1
+        while k >= 0 and toks[k].text not in (";", "{", "}"):
+            if toks[k].text in (")", "]"):
+                k = pair[k]
+            k -= 1
+        stmt_pos = toks[k].end if k >= 0 else 0
+        lets = []
+        counter += 1
+        cur = "t%d_" % counter
+        lets.append("let %s = %s;" % (cur, recv))
+        end_tok = i - 2
+        while True:
+            name = toks[i].text
+            a0, a1 = i + 1, pair[i + 1]
+            arg_toks = toks[a0 + 1:a1]
+            if arg_toks and arg_toks[0].text == "|":
+                q = 1
+                while arg_toks[q].text != "|":
+                    q += 1
+                pat = body[arg_toks[1].start:arg_toks[q - 1].end]
+                cbody = body[arg_toks[q + 1].start:arg_toks[-1].end]
+                if name == "and_then":
+                    e = "match %s { Ok(%s) => %s, Err(e_) => Err(e_) }" % (cur, pat, cbody)
+                elif name == "map":
+                    e = "match %s { Ok(%s) => Ok(%s), Err(e_) => Err(e_) }" % (cur, pat, cbody)
+                else:
+                    e = "match %s { Ok(v_) => Ok(v_), Err(%s) => Err(%s) }" % (cur, pat, cbody)
             else:
-                new = "match %s { Ok(v_) => Ok(v_), Err(%s) => Err(%s) }" % (recv, pat, cbody)
-        else:
-            path = body[arg_toks[0].start:arg_toks[-1].end]
-            if name == "map":
-                new = "match %s { Ok(v_) => Ok(%s(v_)), Err(e_) => Err(e_) }" % (recv, path)
-            elif name == "map_err":
-                new = "match %s { Ok(v_) => Ok(v_), Err(e_) => Err(%s(e_)) }" % (recv, path)
-            else:
-                new = "match %s { Ok(v_) => %s(v_), Err(e_) => Err(e_) }" % (recv, path)
-        # parenthesise when the match is itself a receiver / operand of `?`
-        nxt = toks[a1 + 1].text if a1 + 1 < len(toks) else ""
-        if nxt in (".", "?"):
-            new = "(" + new + ")"
-        body = body[:toks[r0].start] + new + body[toks[a1].end:]
+                path = body[arg_toks[0].start:arg_toks[-1].end]
+                if name == "map":
+                    e = "match %s { Ok(v_) => Ok(%s(v_)), Err(e_) => Err(e_) }" % (cur, path)
+                elif name == "map_err":
+                    e = "match %s { Ok(v_) => Ok(v_), Err(e_) => Err(%s(e_)) }" % (cur, path)
+                else:
+                    e = "match %s { Ok(v_) => %s(v_), Err(e_) => Err(e_) }" % (cur, path)
+            end_tok = a1
+            nxt = a1 + 1
+            more = nxt + 2 < len(toks) and toks[nxt].text == "." and toks[nxt + 1].text in COMB and toks[nxt + 2].text == "("
+            if more:
+                counter += 1
+                cur2 = "t%d_" % counter
+                lets.append("let %s = %s;" % (cur2, e))
+                cur = cur2
+                i = nxt + 1
+                continue
+            final = e
+            break
+        nxt_txt = toks[end_tok + 1].text if end_tok + 1 < len(toks) else ""
+        if nxt_txt in (".", "?"):
+            final = "(" + final + ")"
+        body = body[:stmt_pos] + " " + " ".join(lets) + body[stmt_pos:toks[r0].start] + final + body[toks[end_tok].end:]
 
 
 def desugar_for_loops(body, clauses, qual):
